@@ -25,6 +25,10 @@ MAP_C = {'c1': 'ctx1', 'c2': 'ctx2', 'c3': 'ctx3', 'l1': 'loc1', 'l2': 'loc2'}
 KIND = {'vmd': 'comp', 'ch': 'comp', 'dA': 'comp', 'm1': 'metric', 'dB': 'metric', 'm2': 'metric', 'pc': 'ctx',
         'lc': 'ctx', 'al': 'alert', 'op': 'op', 'rt': 'rt', 'asy': 'alert', 'sco': 'comp'}
 
+# the same abstract universe on fixtures/two_mds.xml: one metric, one component and one alert system live in the second MDS
+MAP_D_TWO = dict(MAP_D, m2='numeric_metric_0.channel_0.vmd_0.mds_1', sco='vmd_0.mds_1', asy='alert_system.vmd_0.mds_1')
+MAPPINGS = {'one': (FIXTURE_ONE, MAP_D), 'two': (FIXTURE_TWO, MAP_D_TWO)}
+
 VERSION_FIELDS = {'StateVersion', 'DescriptorVersion', 'Handle', 'DescriptorHandle', 'BindingMdibVersion',
                   'UnbindingMdibVersion', 'ContextAssociation', 'BindingStartTime', 'BindingEndTime'}
 
@@ -316,11 +320,11 @@ def apply_tok(obj, t: int, nested_only: bool = False):
         raise MachineryError(f'apply_tok: no concretisation for {name}')
 
 
-def make_descriptor(mdib, a: str, parent_concrete: str | None):
+def make_descriptor(mdib, a: str, parent_concrete: str | None, handle: str | None = None):
     from sdc11073.xml_types import pm_types
     model = mdib.data_model
     pm = model.pm_names
-    handle = MAP_D[a]
+    handle = handle or MAP_D[a]
     kind = KIND[a]
     if kind == 'comp':
         qn = pm.VmdDescriptor if a == 'vmd' else pm.ChannelDescriptor
@@ -364,9 +368,9 @@ def load_mdib(path=FIXTURE_ONE):
 class MdibReplayer:
     """Executes Mdib.tla actions on a real ProviderMdib and records the projected state after each action."""
 
-    def __init__(self, handles, ctx_handles, mdib=None, after_step=None):
+    def __init__(self, handles, ctx_handles, mdib=None, after_step=None, map_d=None):
         self.mdib = mdib or load_mdib()
-        self.proj = Projector(handles, ctx_handles)
+        self.proj = Projector(handles, ctx_handles, map_d=map_d)
         self.cm = None
         self.mgr = None
         self.handed = {}
@@ -376,7 +380,7 @@ class MdibReplayer:
         self.kept_states = set()
 
     def conc(self, a):
-        return None if a in ('ext', 'none') else MAP_D[a]
+        return None if a in ('ext', 'none') else self.proj.map_d[a]
 
     def snapshot(self):
         return self.proj.project(self.mdib)
@@ -492,7 +496,7 @@ class MdibReplayer:
         self.handed[('D', rec['h'])] = self.mgr.get_descriptor(self.conc(rec['h']))
 
     def _do_AddDescriptor(self, rec):
-        d = make_descriptor(self.mdib, rec['h'], self.conc(rec['p']))
+        d = make_descriptor(self.mdib, rec['h'], self.conc(rec['p']), self.conc(rec['h']))
         st = self.mdib.data_model.mk_state_container(d) if rec['withState'] else None
         self.mgr.add_descriptor(d, state_container=st)
         self.handed[('D', rec['h'])] = d
@@ -503,7 +507,7 @@ class MdibReplayer:
         self.mgr.remove_descriptor(self.conc(rec['h']))
 
     def _do_NewEntity(self, rec):
-        tmpl = make_descriptor(self.mdib, rec['h'], self.conc(rec['p']))
+        tmpl = make_descriptor(self.mdib, rec['h'], self.conc(rec['p']), self.conc(rec['h']))
         ent = self.mdib.entities.new_entity(tmpl.NODETYPE, tmpl.Handle, tmpl.parent_handle)
         ent.descriptor.update_from_other_container(tmpl, skipped_properties=['Handle', 'DescriptorVersion'])
         self.mgr.write_entity(ent)
